@@ -1,6 +1,7 @@
 package main
 
 import (
+	"golang.org/x/tools/go/ssa"
 	"encoding/json"
 	"fmt"
 	"go/ast"
@@ -499,6 +500,7 @@ func runC11(c *Ctx) {
 	c.Min("fields", 120)
 	c.Extra("pairs", pairs)
 
+	c11Primitives(c)
 	c11Narrowing(c, progs)
 	c11Determinism(c, progs)
 	c11V1Currency(c, progs)
@@ -766,8 +768,32 @@ func pinnedProgram(wp *WireProg) bool {
 	return true
 }
 
+// canonCases returns a copy of ops with the clauses of every switch sorted by tag (default last): the order
+// of mutually exclusive clauses is not part of the layout.
+func canonCases(ops []Op) []Op {
+	out := make([]Op, len(ops))
+	for i, o := range ops {
+		o.Sub = canonCases(o.Sub)
+		if len(o.Cases) > 0 {
+			cs := make([]OpCase, len(o.Cases))
+			for j, c := range o.Cases {
+				cs[j] = OpCase{Tag: c.Tag, Ops: canonCases(c.Ops)}
+			}
+			sort.SliceStable(cs, func(a, b int) bool {
+				if (cs[a].Tag == "default") != (cs[b].Tag == "default") {
+					return cs[b].Tag == "default"
+				}
+				return cs[a].Tag < cs[b].Tag
+			})
+			o.Cases = cs
+		}
+		out[i] = o
+	}
+	return out
+}
+
 func layoutLines(wp *WireProg) []string {
-	ls := flatLines(wp.Ops, true)
+	ls := flatLines(canonCases(wp.Ops), true)
 	for i := range ls {
 		ls[i] = anonLocals(ls[i])
 	}
@@ -999,4 +1025,63 @@ func checkMirrorKey(c *Ctx, progs map[string]*WireProg, rule, key string) {
 	nd := normaliseOps(dec.Ops, progs, dec, 0)
 	diffs := mirrorDiff(ne, nd, "")
 	c.Check(len(diffs) == 0, rule, key, where, ifElse(len(diffs) == 0, fmt.Sprintf("%d ops mirror %s", len(ne), dec.Name), "decoder does not mirror encoder: "+strings.Join(diffs, " | ")))
+}
+
+// c11Primitives: a Decoder primitive may reject only what its Encoder counterpart cannot have written:
+// an I/O error, a non-canonical bool byte, a length prefix larger than the bytes left. Any other rejection
+// inside Read*/ReadTime/ReadUint64… makes some encodable value undecodable (round-trip broken for every type
+// that contains it).
+func c11Primitives(c *Ctx) {
+	ge := NewGuardEngine(c.P, 2)
+	allowed := map[string]map[string]bool{
+		"Read":       {"io": true},
+		"ReadBool":   {"canonical-bool": true},
+		"ReadBytes":  {"length-prefix": true},
+		"ReadPrefix": {"length-prefix": true},
+	}
+	pkg := c.P.SSAPackage("types")
+	if pkg == nil {
+		c.Undecided("primitive-symmetry", "types", "", "package does not load")
+		return
+	}
+	dec, _ := pkg.Members["Decoder"].(*ssa.Type)
+	if dec == nil {
+		c.Undecided("primitive-symmetry", "types.Decoder", "", "type does not resolve")
+		return
+	}
+	ms := c.P.SSA.MethodSets.MethodSet(types.NewPointer(dec.Type()))
+	n := 0
+	for i := 0; i < ms.Len(); i++ {
+		fn := c.P.SSA.MethodValue(ms.At(i))
+		if fn == nil || !strings.HasPrefix(fn.Name(), "Read") || len(fn.Blocks) == 0 {
+			continue
+		}
+		n++
+		var bad []string
+		kinds := map[string]bool{}
+		for _, cf := range ge.Calls(fn, nil, nil, nil, 0, map[*ssa.Function]int{}) {
+			if len(cf.Chain) != 1 || cf.Callee == nil || FuncName(cf.Callee) != "(*types.Decoder).SetErr" || len(cf.Args) != 2 {
+				continue
+			}
+			ctx := strings.Join(cf.Ctx, " && ")
+			kind := ""
+			switch {
+			case strings.Contains(cf.Args[1], "call io.ReadFull(") || strings.Contains(cf.Args[1], "call invoke io.Reader.Read("):
+				kind = "io"
+			case strings.Contains(ctx, ".buf[0]"):
+				kind = "canonical-bool"
+			case strings.Contains(ctx, ".lr.N"):
+				kind = "length-prefix"
+			default:
+				kind = "other"
+			}
+			kinds[kind] = true
+			if !allowed[fn.Name()][kind] {
+				bad = append(bad, fmt.Sprintf("%s rejects when %s (%s)", c.P.Pos(cf.Pos), ifElse(ctx == "", "always", ctx), cf.Args[1]))
+			}
+		}
+		c.Check(len(bad) == 0, "primitive-symmetry", "(*types.Decoder)."+fn.Name(), c.P.Pos(fn.Pos()), ifElse(len(bad) == 0, "rejects only "+ifElse(len(kinds) == 0, "nothing of its own", strings.Join(sortedKeys(kinds), ", ")), "a decoder primitive rejects a value its encoder counterpart can write: "+strings.Join(bad, "; ")))
+	}
+	c.Min("primitive-symmetry", 6)
+	_ = n
 }
